@@ -37,6 +37,74 @@ def obligations(tier):
     return obs
 
 
+def forwarding_stage():
+    """the beam configuration requested from depccg.parsing.run is the one the search works with: the keyword arguments that reach
+    depccg._parsing.run, completed with the defaults init_config (parsing.pyx) applies to missing keys, equal the request"""
+    import os
+    import re
+    import sys
+    import types
+    from engines.pysym import hook
+    src = open(os.path.join(hook.REPO, 'depccg', 'parsing.pyx'), encoding='utf-8').read()
+    defaults = {k: eval(v) for k, v in re.findall(r"kwargs\.pop\('(\w+)',\s*([^)]+)\)", src)}
+    got = []
+    m = types.ModuleType('depccg._parsing')
+    m.run = lambda doc, scores, cats, bf, uf, roots, process_id=0, **kw: got.append(kw) or [[('x',)] for _ in doc]
+    sys.modules['depccg._parsing'] = m
+    import depccg
+    depccg._parsing = m
+    import depccg.parsing as P
+    import numpy
+    P.__dict__['numpy'] = numpy
+    from depccg.cat import Category
+    from depccg.types import Token, ScoringResult
+    cats = [Category.parse('NP'), Category.parse('N')]
+    doc = [[Token(word='a')], [Token(word='b'), Token(word='c')]]
+    srs = [ScoringResult(numpy.zeros((len(t), 2), dtype=numpy.float32), numpy.zeros((len(t), len(t) + 1), dtype=numpy.float32)) for t in doc]
+    bad, n = [], 0
+    for use_beta in (True, False):
+        for beta in (0.5, 1e-5):
+            for pruning in (1, 50):
+                for nbest in (1, 3):
+                    for unary_penalty in (0.1, 0.0):
+                        for max_step in (10, 10000000):
+                            req = dict(use_beta=use_beta, beta=beta, pruning_size=pruning, nbest=nbest, unary_penalty=unary_penalty, max_step=max_step)
+                            del got[:]
+                            P.run(doc, srs, cats, [cats[0]], lambda x, y: [], lambda x: [], processes=1, **req)
+                            n += 1
+                            eff = dict(defaults)
+                            eff.update({k: v for k, v in got[0].items() if k in req})
+                            for k, v in req.items():
+                                if k == 'beta' and not eff.get('use_beta', True) and not use_beta:
+                                    continue          # beta is irrelevant when the filter is off on both sides
+                                if eff.get(k) != v:
+                                    bad.append(('C16.configuration-not-forwarded.' + k, dict(requested=req, effective={kk: eff.get(kk) for kk in req})))
+    return dict(configurations=n, pyx_defaults={k: repr(v) for k, v in defaults.items()}), bad
+
+
 def main(tier):
+    import json
+    import os
+    from lib import framework
+    rc = _search_main(tier)
+    info, bad = forwarding_stage()
+    EVD = os.environ.get('VERIF_EVIDENCE_DIR') or os.path.join(framework.VERIF, 'evidence')
+    p = os.path.join(EVD, 'C16.json')
+    ev = json.load(open(p))
+    ev['coverage']['configuration_forwarding'] = info
+    if bad:
+        rdir = os.path.join(framework.VERIF, 'replays', 'C16')
+        os.makedirs(rdir, exist_ok=True)
+        path = os.path.join(rdir, 'forwarding.json')
+        json.dump(dict(property='C16', engine='ground', bad=bad[:10]), open(path, 'w'), indent=1)
+        ev['violations'] = ev.get('violations', 0) + 1
+        print('  counterexample: %s %r' % (bad[0][0], bad[0][1]))
+        print('VIOLATION property=C16 replay=%s' % path)
+        rc = 1
+    json.dump(ev, open(p, 'w'), indent=1)
+    return rc
+
+
+def _search_main(tier):
     return S.run_search_check('C16', tier, obligations(tier), ('C16.',), FUNCTIONS, BOUNDS[tier], OUTSIDE, ASSUMPTIONS,
                               records_for_validation=True, record_every=(5 if tier == 'quick' else 10))
